@@ -123,7 +123,7 @@ def _strata():
 def generate(ctx):
     rng = ctx.rng
     strata = _strata()
-    total = ctx.n(6400, 160000)
+    total = ctx.n(6400, 120000)
     # offset by shard so that the cyclic enumeration of (format, n, max_persist, fault) differs per shard
     base = ctx.shard * 7919
     for i in range(total):
@@ -677,12 +677,10 @@ def _groups(step, m, mp):
         return [([labels[step['pos']]], 'single')]
     if op in _MULTI:
         return [(G.result_labels(step, labels), 'multi')]
-    if op in ('items', 'values', 'export'):
+    if op in ('items', 'values', 'export', 'iter_element'):
         if mp is None:
             return [(list(labels), 'multi')]
         return [([l], 'single') for l in labels]  # documented: one at a time under a bound
-    if op == 'iter_element':
-        return [(list(labels), 'multi')]
     if op == 'get':
         return [([step['label']], 'single')] if step['present'] and step['label'] in labels else []
     return []
